@@ -245,6 +245,70 @@ def chk_scratch_sized_ibs(F):
     return True, '%d allocations, all internal_buffer_size frames' % len(al)
 
 
+def _site_block_in_owner(F, b, bb):
+    """(owner body, block) of a site: a site inside a closure counts at the block of its owner that builds the closure."""
+    if '::{closure' not in b.path:
+        return b, bb
+    owner = F.body(b.path[:b.path.find('::{closure')])
+    if owner is None:
+        return b, bb
+    for x, si, s in owner.stmts():
+        if s['k'] == 'assign' and s['rv']['k'] == 'agg' and s['rv'].get('ak') == 'closure' and s['rv'].get('closure') == b.path:
+            return owner, x
+    return b, bb
+
+
+def chk_tween_value_guarded(F):
+    """Every caller of `Tween::value` (which divides by the tween's duration) has established that the duration is not
+    zero: it is dominated by the false side of `duration.is_zero()` or of `time >= duration.as_secs_f64()` (time >= 0)."""
+    from .facts import callee_path
+    from .paths import parse_term
+    from .nonfinite import dominating_decisions
+    n = 0
+    for b in F.bodies:
+        if b.krate != 'kira':
+            continue
+        for bb, t in b.calls():
+            if (callee_path(t) or '') != 'tween::Tween::value':
+                continue
+            n += 1
+            ob, obb = _site_block_in_owner(F, b, bb)
+            good = False
+            for _, desc, lab in dominating_decisions(ob, obb):
+                nm, ar = parse_term(desc)
+                sh = nm.split('::')[-1]
+                if sh == 'is_zero' and 'duration' in desc and lab == '0':
+                    good = True
+                if nm == 'Le' and ar and 'as_secs_f64' in ar[0] and 'duration' in ar[0] and lab == '0':
+                    good = True       # !(duration <= time)
+                if nm == 'Lt' and ar and 'as_secs_f64' in ar[1] and 'duration' in ar[1] and lab == 'otherwise':
+                    good = True       # time < duration
+            if not good:
+                return False, '%s evaluates Tween::value without having excluded a zero duration (0/0 at time 0)' % b.path
+    return n >= 2, '%d callers of Tween::value, all behind a non-zero-duration test' % n
+
+
+def chk_compressor_log_floored(F):
+    """The compressor's level detector takes log10 of |sample| (-inf for a silent sample); the value is only used as
+    `max(level - threshold, 0.0)`, which absorbs -inf."""
+    from .facts import callee_path
+    from .paths import describe
+    P = '<effect::compressor::Compressor as effect::Effect>::process'
+    logs = floors = 0
+    for b in [F.body(P)] + list(F.closures_of(P)):
+        if b is None:
+            continue
+        for bb, t in b.calls():
+            cp = callee_path(t) or ''
+            if cp.endswith('<impl f32>::log10'):
+                logs += 1
+            if cp.endswith('<impl f32>::max') and describe(b, t['args'][1], at=bb) == '0.0' and describe(b, t['args'][0], depth=3, at=bb).startswith('Sub('):
+                floors += 1
+    if logs == 0:
+        return True, 'no log10 left'
+    return floors >= 1, '%d log10 site(s), %d `max(level - threshold, 0.0)` floor(s)' % (logs, floors)
+
+
 CHECKS = {
     'scratch_sized_ibs': chk_scratch_sized_ibs,
     'delay_line_nonempty': chk_delay_line_nonempty,
@@ -252,6 +316,8 @@ CHECKS = {
     'reverb_initialised': chk_reverb_initialised,
     'delay_chunked_by_line': chk_delay_chunked_by_line,
     'loop_region_ordered': chk_loop_region_ordered,
+    'tween_value_guarded': chk_tween_value_guarded,
+    'compressor_log_floored': chk_compressor_log_floored,
 }
 
 
@@ -290,7 +356,7 @@ def run_check(F, name, cache):
 
 
 def run_engine_a(R, F, groups=('rt',), effects=('alloc', 'free', 'panic', 'block', 'leaf'), loops=True,
-                 rule_prefix='A', config='default', fn_filter=None):
+                 rule_prefix='A', config='default', fn_filter=None, singular=False, singular_floor=None):
     sinks, sites, loop_tab = load_table()
     A = RtAnalysis(F, list(groups))
     tag = '' if config == 'default' else '@' + config
@@ -397,4 +463,18 @@ def run_engine_a(R, F, groups=('rt',), effects=('alloc', 'free', 'panic', 'block
             R.bad(rule, key, 'loop on the audio thread whose exit is not decided by a finite iterator or a ring drain and has '
                   'no table entry: %s (exits: %s)' % (l['fn'], l['detail'][:200]), where=l['where'], chain=l['chain'])
         R.extra.setdefault('engine_a_loops', {})[config] = lstats
+    if singular:
+        from .nonfinite import run_singular
+        run_singular(R, F, A, sites, rule=rule_prefix + '.singular', fn_filter=fn_filter, floor=singular_floor,
+                     check_runner=lambda name: run_check(F, name, check_cache))
     return A
+
+
+def run_singular_only(R, F, fn_filter, floor, rule='A.singular'):
+    """The `singular` obligations (kvlib.nonfinite) of the audio-path functions selected by fn_filter."""
+    from .nonfinite import run_singular
+    _, sites, _ = load_table()
+    A = RtAnalysis(F, ['rt'])
+    cache = {}
+    return run_singular(R, F, A, sites, rule=rule, fn_filter=fn_filter, floor=floor,
+                        check_runner=lambda name: run_check(F, name, cache))
